@@ -27,6 +27,7 @@ def _bytes(ranges) -> frozenset:
 
 
 class TrkWorld(World):
+    prop = P
     name = "TRK"
     uses_sandbox = False
 
